@@ -1,6 +1,152 @@
-/- dispatcher for the hand-written logic models (filled in as the models are added) -/
+/-
+  Dispatcher of the line protocol for the hand-written logic models (tie T2).  One request per line, one answer per line;
+  anything malformed answers `bad-op` (never a default).
+
+    logic ul <data> <op>*         run the SMUserList model; data = `-` or comma separated naturals
+    logic pylist <data> <op>*     run the Python-list specification
+        ops: get:i  slice:a:b:c (`_` = None)  iter  append:ARG  extend:ARG  insert:i:ARG  pop:i|pop:_  del:i  set:i:ARG
+             reverse  clear          ARG = s<k> (single value k) | m<k,k,..> (multi-valued) | f (foreign class)
+        answer: <out>;<out>;...|<final data>
+    logic disp <Cls> <BOp> <Cls>  operator dispatch model;  `logic doc <Cls> <BOp> <Cls>` documented table
+    logic bcast <n> <m>           binop on lists of n and m elements: which (i,j) pairs are combined
+    logic getvector <Form> <dim|_>   logic isvector <Form> <dim|_>
+    logic arghandler <check:0|1> <CARG>   CARG = nothing | array:<0|1> | arrays:<0|1,..> | objects:<n> | same:<n> | unknown
+-/
+import SmVerif.Logic.PyList
+import SmVerif.Logic.Broadcast
+import SmVerif.Logic.Dispatch
+import SmVerif.Logic.ArgCheck
+
 namespace SmVerif.Logic
 
-def handle (_toks : List String) : String := "bad-op"
+def parseNats (s : String) : Option (List Nat) :=
+  if s = "-" ∨ s = "" then some [] else (s.splitOn ",").mapM String.toNat?
+
+def parseOptInt (s : String) : Option (Option Int) :=
+  if s = "_" then some none else s.toInt?.map some
+
+def parseArg (s : String) : Option (Arg Nat) :=
+  if s = "f" then some .foreign
+  else if s.startsWith "s" then (s.drop 1).toString.toNat?.map .single
+  else if s.startsWith "m" then (parseNats (s.drop 1).toString).map .multi
+  else none
+
+def parseOp (s : String) : Option (Op Nat) :=
+  match s.splitOn ":" with
+  | ["get", i] => i.toInt?.map .get
+  | ["slice", a, b, c] => do
+      let a ← parseOptInt a; let b ← parseOptInt b; let c ← parseOptInt c
+      pure (.slice a b c)
+  | ["iter"] => some .iter
+  | ["append", x] => (parseArg x).map .append
+  | ["extend", x] => (parseArg x).map .extend
+  | ["insert", i, x] => do let i ← i.toInt?; let x ← parseArg x; pure (.insert i x)
+  | ["pop", i] => (parseOptInt i).map .pop
+  | ["del", i] => i.toInt?.map .del
+  | ["set", i, x] => do let i ← i.toInt?; let x ← parseArg x; pure (.set i x)
+  | ["reverse"] => some .reverse
+  | ["clear"] => some .clear
+  | _ => none
+
+def showNats (l : List Nat) : String := if l.isEmpty then "-" else ",".intercalate (l.map toString)
+
+def showErr : Err → String
+  | .IndexError => "IndexError" | .ValueError => "ValueError" | .TypeError => "TypeError"
+
+def showOut : Out Nat → String
+  | .unit => "ok"
+  | .elem x => s!"e{x}"
+  | .items xs => s!"l{showNats xs}"
+  | .raised e => showErr e
+
+def showCls : Cls → String
+  | .SO2 => "SO2" | .SE2 => "SE2" | .SO3 => "SO3" | .SE3 => "SE3" | .Q => "Q" | .UQ => "UQ" | .Tw2 => "Tw2" | .Tw3 => "Tw3"
+  | .Pl => "Pl" | .SVel => "SVel" | .SAcc => "SAcc" | .SFor => "SFor" | .SMom => "SMom" | .SIne => "SIne" | .DQ => "DQ" | .UDQ => "UDQ"
+
+def parseCls (s : String) : Option Cls := Cls.all.find? (fun c => showCls c = s)
+
+def showBOp : BOp → String
+  | .mul => "mul" | .div => "div" | .add => "add" | .sub => "sub" | .pow => "pow" | .matmul => "matmul"
+def parseBOp (s : String) : Option BOp := BOp.all.find? (fun c => showBOp c = s)
+
+def showRes : Res → String
+  | .cls c => showCls c | .arr => "arr" | .scalar => "scalar" | .none => "none" | .raises => "raises"
+
+def showSpec : Spec → String
+  | .result r => showRes r | .mustRaise => "raises" | .unspecified => "unspecified"
+
+def parseForm (s : String) : Option Form :=
+  match s.splitOn ":" with
+  | ["scalar"] => some .scalar
+  | ["list", n] => n.toNat?.map .list
+  | ["tuple", n] => n.toNat?.map .tuple
+  | ["arr1", n] => n.toNat?.map .arr1
+  | ["row", n] => n.toNat?.map .row
+  | ["col", n] => n.toNat?.map .col
+  | ["arr2", r, c] => do let r ← r.toNat?; let c ← c.toNat?; pure (.arr2 r c)
+  | ["other"] => some .other
+  | _ => none
+
+def parseDim (s : String) : Option (Option Nat) := if s = "_" then some none else s.toNat?.map some
+
+def showARes : ARes → String
+  | .ok n => s!"ok{n}" | .valueError => "ValueError" | .typeError => "TypeError"
+
+def parseCArg (s : String) : Option (CArg Nat) :=
+  match s.splitOn ":" with
+  | ["nothing"] => some .nothing
+  | ["array", x] => x.toNat?.map .array
+  | ["arrays", xs] => (parseNats xs).map .arrays
+  | ["objects", xs] => (parseNats xs).map .objects
+  | ["same", xs] => (parseNats xs).map .same
+  | ["unknown"] => some .unknown
+  | _ => none
+
+def handle (toks : List String) : String :=
+  match toks with
+  | "ul" :: d :: ops =>
+    (match parseNats d, ops.mapM parseOp with
+     | some d, some ops =>
+        let (s, outs) := UL.run ({ data := d } : UL Nat) ops
+        ";".intercalate (outs.map showOut) ++ "|" ++ showNats s.data
+     | _, _ => "bad-op")
+  | "pylist" :: d :: ops =>
+    (match parseNats d, ops.mapM parseOp with
+     | some d, some ops =>
+        let (s, outs) := PyList.run d ops
+        ";".intercalate (outs.map showOut) ++ "|" ++ showNats s
+     | _, _ => "bad-op")
+  | ["disp", l, o, r] =>
+    (match parseCls l, parseBOp o, parseCls r with
+     | some l, some o, some r => showRes (binopCls l r o)
+     | _, _, _ => "bad-op")
+  | ["doc", l, o, r] =>
+    (match parseCls l, parseBOp o, parseCls r with
+     | some l, some o, some r => showSpec (documented l r o)
+     | _, _, _ => "bad-op")
+  | ["bcast", n, m] =>
+    (match n.toNat?, m.toNat? with
+     | some n, some m =>
+        (match binop (fun (i j : Nat) => s!"{i}-{j}") (List.range n) (List.range m) with
+         | .ok ps => if ps.isEmpty then "-" else ",".intercalate ps
+         | .error _ => "ValueError")
+     | _, _ => "bad-op")
+  | ["getvector", f, d] =>
+    (match parseForm f, parseDim d with
+     | some f, some d => showARes (getvector f d)
+     | _, _ => "bad-op")
+  | ["isvector", f, d] =>
+    (match parseForm f, parseDim d with
+     | some f, some d => toString (isvector f d)
+     | _, _ => "bad-op")
+  | ["arghandler", c, a] =>
+    (match c.toNat?, parseCArg a with
+     | some c, some a =>
+        -- items are naturals; odd = valid value, even = invalid; identity is 1
+        (match arghandler (fun (x : Nat) => x % 2 == 1) 1 (c != 0) a with
+         | some xs => showNats xs
+         | none => "false")
+     | _, _ => "bad-op")
+  | _ => "bad-op"
 
 end SmVerif.Logic
